@@ -15,7 +15,7 @@ FUNCTIONS = ['main() of btcdeb.cpp: listing construction (script_lines, count, s
 ASSUMPTIONS = ['process environment modelled as in C08; kerl_* (readline loop) stubbed: the session is inspected at the point main() enters the prompt', 'tinyformat::format modelled precisely in Python for the format strings used by the listing',
                'signature / tweak checks answer through uninterpreted functions (both outcomes explored)', 'dual-stack rendering (column layout) is outside the claim']
 OUTSIDE = ['rewind steps (curr_op_seq decrement is covered by C04)', 'fn_print / fn_step echo code (they index script_lines with curr_op_seq; the index itself is what is checked)']
-BOUNDS = 'plain scripts (9 templates, pushes of 1-3 symbolic bytes); the six real-chain sessions of doc/txs run through --tx/--txin (legacy P2PKH with scriptPubKey section, P2SH multisig, P2SH-P2WPKH, taproot key path, tapscript); tapscript commitment line/step count for path lengths 0..3'
+BOUNDS = 'tapscript sessions with Merkle paths of length 0..3 whose node bytes are symbolic (listing text of every commitment line against the bytes the step hashes); plain scripts (9 templates, pushes of 1-3 symbolic bytes); the six real-chain sessions of doc/txs run through --tx/--txin (legacy P2PKH with scriptPubKey section, P2SH multisig, P2SH-P2WPKH, taproot key path, tapscript); tapscript commitment line/step count for path lengths 0..3'
 
 def setup(E):
     maindeb.setup(E)
@@ -31,6 +31,14 @@ def setup(E):
     E.stubs['_ZNK7CPubKey6VerifyERK7uint256RKSt6vectorIhSaIhEE'] = verify
     E.stubs['_ZNK11XOnlyPubKey13VerifySchnorrERK7uint2564SpanIKhE'] = verify
     E.stubs['_ZN7CPubKey9CheckLowSERKSt6vectorIhSaIhEE'] = lambda E, st, fr, I, A: 1
+    def tce_ctor(E, st, fr, I, A):
+        # make the Merkle path nodes of the control block symbolic at the moment the commitment object is built (the transaction text stays concrete)
+        if st.aux.get('sym_control') and not st.aux.get('tce_done'):
+            b = E.load(st, A[1], 8); e = E.load(st, A[1] + 8, 8)
+            for i in range(33, e - b): E.store(st, b + i, 1, z3.BitVec('cb%d' % i, 8))
+            st.aux['tce_done'] = True
+        return stubs.NOT_HANDLED
+    E.stubs['_ZN20TaprootCommitmentEnvC2ERKSt6vectorIhSaIhEES4_RK7CScriptP7uint256'] = tce_ctor
 
 PLAIN = ['OP_1 OP_2 OP_ADD', '0x?? OP_DUP OP_DROP', 'OP_IF OP_1 OP_ELSE 0x???? OP_ENDIF', '0x?????? 0x?? OP_SWAP', 'OP_1', 'OP_0 OP_IF OP_2 OP_ENDIF OP_3', 'OP_1 OP_VERIFY OP_DEPTH', 'OP_RETURN OP_1', 'OP_NOP OP_NOP1']
 FIXTURES = ['p2pkh', 'p2sh-multisig-2-of-2', 'p2sh-multisig-invalid-order', 'p2sh-p2wpkh', 'p2tr', 'p2ts']
@@ -40,6 +48,7 @@ def obligations(tier, seed):
     for s in PLAIN: obs.append(dict(name='plain/' + s, kind='plain', script=s, args=['0x01'] if s.startswith('OP_IF') else []))
     for f in FIXTURES: obs.append(dict(name='fixture/' + f, kind='fixture', fx=f, timeout_s=900, cost=10))
     for m in range(0, 4): obs.append(dict(name='tce-lines/m%d' % m, kind='tcelines', m=m))
+    for m in range(0, 4): obs.append(dict(name='tapscript-session/m%d' % m, kind='tapsession', m=m, timeout_s=900, cost=5))
     return obs
 
 def read_fixture(fx):
@@ -62,6 +71,20 @@ def session_argv(ob, V=None):
             else: chars += list(t.encode())
         chars.append(ord(']'))
         return [list(b'btcdeb'), chars] + [list(a.encode()) for a in ob['args']], assume, syms
+    if ob['kind'] == 'tapsession':
+        import C03, random
+        import hashlib
+        txid = None
+        for _pass in (0, 1):
+            rnd = random.Random(100 + ob['m']); memo = {}
+            class RV(dict):
+                def get(s_, k, d=0):
+                    if k not in memo: memo[k] = 0xc0 if k == 'c0' else (0x51 + rnd.randrange(8) if k.startswith('scr') else rnd.randrange(256))
+                    if txid is not None and k.startswith('ph'): return txid[int(k[2:])]
+                    return memo[k]
+            b = C03.build(dict(t='p2tr-script-ctrl', idx=0, csize=33 + 32 * ob['m']), RV())
+            txid = hashlib.sha256(hashlib.sha256(bytes(b['txin'])).digest()).digest()
+        return [list(b'btcdeb'), list(('--tx=' + bytes(b['tx']).hex()).encode()), list(('--txin=' + bytes(b['txin']).hex()).encode())], assume, syms
     tx, txin = read_fixture(ob['fx'])
     return [list(b'btcdeb'), list(('--tx=' + tx).encode()), list(('--txin=' + txin).encode())], assume, syms
 
@@ -172,7 +195,7 @@ def run(E, ob):
         return res
     argv, assume, syms = session_argv(ob)
     inputs = dict(syms=syms)
-    fin = maindeb.run_main(E, argv, (1, 1, 1), None, assume)
+    fin = maindeb.run_main(E, argv, (1, 1, 1), None, assume, aux=dict(sym_control=(ob['kind'] == 'tapsession')))
     res['paths'] = len(fin); n = 0
     for f in fin:
         if f.result != ('exit', 1000):
